@@ -27,6 +27,56 @@ def _mentions_version(test):
     return False
 
 
+class _Subst(ast.NodeTransformer):
+    def __init__(self, env):
+        self.env = env
+
+    def visit_Name(self, n):
+        if isinstance(n.ctx, ast.Load) and n.id in self.env:
+            return self.env[n.id]
+        return n
+
+
+def _bind_static(target, value, env):
+    if isinstance(target, ast.Name):
+        env[target.id] = value
+        return True
+    if isinstance(target, (ast.Tuple, ast.List)) and isinstance(value, (ast.Tuple, ast.List)) and len(target.elts) == len(value.elts):
+        return all(_bind_static(t, v, env) for t, v in zip(target.elts, value.elts))
+    return False
+
+
+def static_sequence(value, depth=0):
+    """element expressions of a module-level sequence written as a literal, as map(F, <literal>), or as a generator /
+    list comprehension over a literal without filters (the element expression with the loop names substituted)"""
+    import copy
+
+    if depth > 3:
+        return None
+    if isinstance(value, (ast.Tuple, ast.List)):
+        return None if any(isinstance(e, ast.Starred) for e in value.elts) else list(value.elts)
+    if isinstance(value, ast.Call) and isinstance(value.func, ast.Name) and not value.keywords:
+        if value.func.id in ("tuple", "list", "iter") and len(value.args) == 1:
+            return static_sequence(value.args[0], depth + 1)
+        if value.func.id == "map" and len(value.args) == 2:
+            src = static_sequence(value.args[1], depth + 1)
+            if src is not None:
+                return [ast.copy_location(ast.Call(func=value.args[0], args=[e], keywords=[]), value) for e in src]
+    if isinstance(value, (ast.GeneratorExp, ast.ListComp)) and len(value.generators) == 1 and not value.generators[0].ifs and not value.generators[0].is_async:
+        g = value.generators[0]
+        src = static_sequence(g.iter, depth + 1)
+        if src is None or len(src) > 16:
+            return None
+        out = []
+        for e in src:
+            env = {}
+            if not _bind_static(g.target, e, env):
+                return None
+            out.append(ast.fix_missing_locations(_Subst(env).visit(copy.deepcopy(value.elt))))
+        return out
+    return None
+
+
 def static_module_cond(mod, test, env=None):
     """Value of a module-level condition that is fixed for the installed NumPy: a NumpyVersion / __version__
     comparison, or `NAME is (not) None` for a NAME whose live binding is known (env of a registration helper
@@ -201,12 +251,12 @@ class Mod:
                 for t in st.targets:
                     if isinstance(t, ast.Name):
                         self._bind(t.id, ("assign", val_, st))
-                    elif isinstance(t, ast.Tuple) and isinstance(st.value, ast.Tuple) and len(t.elts) == len(
-                        st.value.elts
-                    ):
-                        for te, ve in zip(t.elts, st.value.elts):
-                            if isinstance(te, ast.Name):
-                                self._bind(te.id, ("assign", ve, st))
+                    elif isinstance(t, ast.Tuple):
+                        seq_ = static_sequence(st.value)
+                        if seq_ is not None and len(seq_) == len(t.elts):
+                            for te, ve in zip(t.elts, seq_):
+                                if isinstance(te, ast.Name):
+                                    self._bind(te.id, ("assign", ve, st))
             elif isinstance(st, ast.AnnAssign) and isinstance(st.target, ast.Name) and st.value is not None:
                 self._bind(st.target.id, ("assign", st.value, st))
             elif isinstance(st, ast.Expr) and isinstance(st.value, ast.Call):
